@@ -102,10 +102,38 @@ func (w *World) compareObs(repo string, pre *obs, props []string, oracle, sig st
 }
 
 // checkState compares the server with the model over every name the run used.
+// checkZombieIO: after a clean restart the closed server must not touch the directory any more.
+func (w *World) checkZombieIO() {
+	if w.root == "" || w.gen < 2 {
+		return
+	}
+	log := w.x.sim.FS.Log
+	for i := w.restartAt; i < len(log); i++ {
+		e := log[i]
+		if e.Gen > 0 && e.Gen < w.gen && strings.HasPrefix(e.Path, w.root) && e.Err != "detached" {
+			w.x.viol([]string{"C10"}, "restart.zombie-io", e.Op+" by "+taskKind(e.Task), fmt.Sprintf("after Close and reopen, a task of the closed server (%s, generation %d) still issued %s %s", e.Task, e.Gen, e.Op, strings.ReplaceAll(e.Path, w.root, "")))
+			w.restartAt = len(log)
+			return
+		}
+	}
+	w.restartAt = len(log)
+}
+
+func taskKind(name string) string {
+	switch {
+	case strings.HasPrefix(name, "timer"):
+		return "a cache timer"
+	case strings.Contains(name, "gcTicker"):
+		return "the collection ticker"
+	}
+	return "a background goroutine"
+}
+
 func (w *World) checkState(final bool) {
 	if w.closed {
 		return
 	}
+	w.checkZombieIO()
 	w.x.out.States = append(w.x.out.States, w.m.stateHash())
 	w.x.mix(w.m.shapeHash())
 	repos := append([]string(nil), w.x.p.Repos...)
@@ -534,6 +562,7 @@ func (w *World) opRestart() {
 		w.m = newModel(w.k)
 	}
 	w.open()
+	w.restartAt = len(w.x.sim.FS.Log)
 	w.x.out.probe("restart")
 	if pre != nil {
 		for _, r := range w.allRepoNames() {
